@@ -268,7 +268,7 @@ def classify(case, o):
 # ---- C: other uses of a snapshot that holds user-controlled parts: never compared, membership, sub-snapshots in loops
 def gen_usage(rng, i):
     kind = ["never", "in", "getitem_loop", "never", "in_nested", "bound_nested", "bound_fstring", "getitem_star", "star_nested",
-            "in_star", "star_loop", "equal_other_spelling", "call_hidden_kw", "inner_field", "fstring_nofield", "never_factory", "cond_inner", "in_nonlist_unm", "leaf_fkey", "leaf_call_pos_unm", "set_star"][i % 21]
+            "in_star", "star_loop", "equal_other_spelling", "call_hidden_kw", "inner_field", "fstring_nofield", "never_factory", "cond_inner", "in_nonlist_unm", "leaf_fkey", "leaf_call_pos_unm", "set_star", "bound_star"][i % 22]
     g = G(rng, agree=True)
     flags = tuple(rng.choice(proggen.flag_subsets()))
     if kind == "never":
@@ -435,6 +435,14 @@ def gen_usage(rng, i):
         body = f"S = {{1}}\n\n\ndef test_a():\n    R = {left} {op} snapshot({right})\n"
         g.snips.append("*S")
         allowed = {"trim"} if op == "in" else set()      # a member that was not tested is removed as a whole by trim
+    elif kind == "bound_star":
+        # a bound is replaced as a whole when it is fixed or trimmed: a bound holding a star-expression (in a list, a set, a nested container) is left alone
+        left, right = rng.choice([("[1, 3]", "[*L, 2]"), ("[1, 1]", "[*L, 2]"), ("[{1, 3}]", "[{*S, 2}]"), ("[[1, 3]]", "[[*L, 4]]"), ("[[1, 5], 0]", "[[*L, 4], 0]"),
+                                  ("(1, [1, 9])", "(1, [*L, 2])"), ("[1, 2]", "[*L, 0x2]")])
+        op = rng.choice(["<=", ">="])
+        body = f"S = {{1}}\nL = [1]\n\n\ndef test_a():\n    R = {left} {op} snapshot({right})\n"
+        g.snips.append("*S" if "*S" in right else "*L")
+        allowed = set()
     elif kind == "leaf_fkey":
         # an f-string as KEY of a dict that is handled as a whole (member of an `in` / <= list): the key is the user's, the leaf is not rewritten
         form = rng.choice(["[{{{k}: 1}}] <= snapshot([{{{k}: 1+0}}])", "{{{k}: 1}} in snapshot([{{{k}: 1+0}}, 0+1])", "[{{{k}: 1}}] >= snapshot([{{{k}: 1+0}}])",
